@@ -18,7 +18,7 @@ extra_srcs=""
 case $variant in
   v0) cc=gcc;   flags="-O0 -g -DMYTH_VERIF" ;;
   v2) cc=gcc;   flags="-O2 -g -DMYTH_VERIF" ;;
-  va) cc=clang; flags="-O1 -g -fsanitize=address,undefined -fno-sanitize=signed-integer-overflow,alignment -fno-omit-frame-pointer -DMYTH_VERIF -Dreal_pthread_attr_getstack=myth_real_pthread_attr_getstack" ;;
+  va) cc=clang; flags="-O1 -g -fsanitize=address,undefined -fno-sanitize=signed-integer-overflow,alignment,bounds -fno-omit-frame-pointer -DMYTH_VERIF -Dreal_pthread_attr_getstack=myth_real_pthread_attr_getstack" ;;
   c0) cc=clang; flags="-O0 -g -DMYTH_VERIF" ;;
   c2) cc=clang; flags="-O2 -g -DMYTH_VERIF" ;;
   n0) cc=gcc;   flags="-O0 -g" ;;
@@ -34,7 +34,7 @@ if [ ! -f $REPO/src/config.h ]; then
   (cd $tmp && $REPO/configure -q >/dev/null 2>&1 && cp src/config.h $REPO/src/config.h) || { echo "cannot produce config.h" >&2; rm -rf $tmp; exit 2; }
   rm -rf $tmp
 fi
-h=$( (cd $REPO && cat src/*.c src/*.h src/*.S include/myth/*.h 2>/dev/null; echo "$variant $flags $cc") | sha1sum | cut -c1-16)
+h=$( (cd $REPO && cat src/*.c src/*.h src/*.S include/myth/*.h src/profiler/*.c src/profiler/*.h 2>/dev/null; echo "$variant $flags $cc") | sha1sum | cut -c1-16)
 if [ -f $out/.hash ] && [ "$(cat $out/.hash)" = "$h" ] && [ -f $out/libmyth.a ]; then
   exit 0
 fi
@@ -48,5 +48,14 @@ for s in $SRCS; do
 done
 for p in $pids; do wait $p || { echo "compile failed ($variant)" >&2; exit 2; }; done
 ar rcs $out/libmyth.a $out/*.o
+# DAG recorder (profiler) as a static library
+mkdir -p $out/dr
+pids=""
+for s in dag_recorder.c dag_recorder_no_inl.c chronological.c dr_dump.c gen_stat.c gen_dot.c gen_gpl.c gen_text.c read_dag.c options.c interpolate_counters.c papi_counters.c; do
+  $cc -c -fPIC -D_GNU_SOURCE -DHAVE_CONFIG_H -I$REPO/include -I$REPO/src -I$REPO/src/profiler -w $flags $REPO/src/profiler/$s -o $out/dr/${s%.c}.o &
+  pids="$pids $!"
+done
+for p in $pids; do wait $p || { echo "compile failed (profiler, $variant)" >&2; exit 2; }; done
+ar rcs $out/libdr.a $out/dr/*.o
 $cc -shared $flags -o $out/libmyth.so $out/*.o -lpthread -ldl -lrt
 echo "$h" > $out/.hash
